@@ -265,7 +265,7 @@ def summarize_event(line):
         if k in e:
             s[k] = e[k]
     s["outcomes"] = [{"be": r.get("be"), "st": r["res"].get("st"), "err": r["res"].get("err"),
-                      "msg": r["res"].get("msg")} for r in e.get("runs", [])]
+                      "msg": r["res"].get("msg"), "stack": r["res"].get("stack")} for r in e.get("runs", [])]
     return s
 
 
